@@ -12,6 +12,9 @@ import Exmex.Model.Deep
 import Exmex.Model.Conv
 import Exmex.Spec.Order
 import Exmex.Proofs.FlattenDefs
+import Exmex.Model.ValModel
+import Exmex.Model.Calc
+import Exmex.Model.Diff
 import Exmex.Spec.Surface
 open Exmex
 
@@ -386,6 +389,204 @@ def doCrash (f : List String) : String :=
     | .error _ => r
   | _ => "BADREQ"
 
+/-! ### the value type over native floats -/
+
+def fTrunc (x : Float) : Float := if x < 0 then x.ceil else x.floor
+
+def fToI32 (x : Float) : Option Int :=
+  if x.isNaN || x.isInf then none
+  else if x > -2147483649.0 && x < 2147483648.0 then
+    let t := fTrunc x
+    some (if t < 0 then -((-t).toUInt64.toNat : Int) else (t.toUInt64.toNat : Int))
+  else none
+
+def fSignum (x : Float) : Float :=
+  if x.isNaN then x else if (x.toBits >>> 63) == 1 then -1.0 else 1.0
+
+def fMin (a b : Float) : Float := if a.isNaN then b else if b.isNaN then a else if a < b then a else b
+def fMax (a b : Float) : Float := if a.isNaN then b else if b.isNaN then a else if a > b then a else b
+
+def fNamed (name : String) (x : Float) : Float :=
+  match name with
+  | "abs" => x.abs
+  | "signum" => fSignum x
+  | "sin" => x.sin | "cos" => x.cos | "tan" => x.tan
+  | "asin" => x.asin | "acos" => x.acos | "atan" => x.atan
+  | "sinh" => x.sinh | "cosh" => x.cosh | "tanh" => x.tanh
+  | "asinh" => x.asinh | "acosh" => x.acosh | "atanh" => x.atanh
+  | "floor" => x.floor | "ceil" => x.ceil | "trunc" => fTrunc x
+  | "fract" => x - fTrunc x
+  | "exp" => x.exp | "sqrt" => x.sqrt | "cbrt" => x.cbrt | "round" => x.round
+  | "ln" => x.log | "log10" => x.log10 | "log2" => x.log2
+  | _ => x
+
+def nativeFloatOps : FloatOps Float where
+  add := (· + ·)
+  sub := (· - ·)
+  mul := (· * ·)
+  div := (· / ·)
+  min := fMin
+  max := fMax
+  powf := Float.pow
+  powi x n := Float.pow x (Float.ofInt n)
+  atan2 := Float.atan2
+  neg x := -x
+  named := fNamed
+  ofInt := Float.ofInt
+  toI32 := fToI32
+  lt a b := a < b
+  le a b := a ≤ b
+  eq a b := a == b
+  zero := 0.0
+  one := 1.0
+
+def hexU64 (s : String) : UInt64 := s.toList.foldl (fun acc c => acc * 16 + UInt64.ofNat (hexVal c)) 0
+
+def showBits (x : Float) : String :=
+  let n := x.toBits.toNat
+  String.ofList ((List.range 16).reverse.map (fun i => hexDigit ((n >>> (4 * i)) % 16)))
+
+def parseVal (s : String) : Val Float :=
+  if s == "n" then .none
+  else if s == "e" then .err
+  else if s.startsWith "i:" then .int (parseInt ((s.drop 2).toString))
+  else if s.startsWith "b:" then .bool ((s.drop 2).toString == "1")
+  else if s.startsWith "f:" then .flt (Float.ofBits (hexU64 ((s.drop 2).toString)))
+  else if s.startsWith "a:" then
+    let body := (s.drop 2).toString
+    .arr (if body == "" then [] else (splitOn body ";").map (fun h => Float.ofBits (hexU64 h)))
+  else .err
+
+def showVal : Val Float → String
+  | .none => "n"
+  | .err => "e"
+  | .int i => "i:" ++ toString i
+  | .bool b => "b:" ++ (if b then "1" else "0")
+  | .flt x => "f:" ++ showBits x
+  | .arr a => "a:" ++ ";".intercalate (a.map showBits)
+
+def showVR : VR Float → String
+  | .ok v => showVal v
+  | .error site => "PANIC:" ++ site
+
+/-- `valop <un|bin> <name> <val> [<val>]` -/
+def doValop (f : List String) : String :=
+  match f with
+  | ["un", nm, a] => "r=" ++ showVR (valUn nativeFloatOps (String.ofList (unhex nm)) (parseVal a))
+  | ["bin", nm, a, b] => "r=" ++ showVR (valBin nativeFloatOps (String.ofList (unhex nm)) (parseVal a) (parseVal b))
+  | _ => "BADREQ"
+
+/-! ### histories of calculations on a pool of expressions (C05, C09, C10, C11) -/
+
+def symCalc : CalcOps Sym where
+  zero := .lit "0".toList
+  one := .lit "1".toList
+  two := .lit "2.0".toList
+  ten := .lit "10.0".toList
+  eqv a b := a == b
+
+abbrev PoolEx := FlatEx Sym ⊕ DeepEx Sym
+
+def poolToDeep (I : Interp Sym) (t : Table) : PoolEx → Res (DeepEx Sym)
+  | .inl f => f.toDeep I t
+  | .inr d => .ok d
+
+def poolFromDeep (I : Interp Sym) (t : Table) (flat : Bool) (d : DeepEx Sym) : PoolEx :=
+  if flat then .inl (FlatEx.fromDeep I t d) else .inr d
+
+def poolShow (I : Interp Sym) (t : Table) : PoolEx → String
+  | .inl f => "v=" ++ evalSym f ++ ";vars=" ++ showStrs f.vars ++ ";text=" ++ hex f.text
+  | .inr d => "v=" ++ evalDeep I d ++ ";vars=" ++ showStrs d.vars ++ ";text=" ++ hex (d.unparse I t)
+
+/-- one history step; `none` result = the operation returned an error (class recorded) -/
+def histStep (I : Interp Sym) (t : Table) (flat : Bool) (pool : Array PoolEx) (op : String) : Res PoolEx :=
+  let f := splitOn op ":"
+  let get (s : String) : Res (DeepEx Sym) :=
+    match pool[parseNat s % pool.size]? with
+    | some e => poolToDeep I t e
+    | none => .error (.err "badindex")
+  let C := symCalc
+  let fin (r : Res (DeepEx Sym)) : Res PoolEx := match r with
+    | .ok d => .ok (poolFromDeep I t flat d)
+    | .error e => .error e
+  match f with
+  | ["b", i, j, nm] =>
+    match get i, get j with
+    | .ok a, .ok b => fin (a.operateBin I t b (unhex nm))
+    | .error e, _ => .error e
+    | _, .error e => .error e
+  | ["u", i, nm] =>
+    match get i with
+    | .ok a => fin (a.operateUnary I t (unhex nm))
+    | .error e => .error e
+  | ["n", i] =>
+    match get i with
+    | .ok a => fin (a.neg I t)
+    | .error e => .error e
+  | ["s", i, m] =>
+    -- substitution map `namehex=j;namehex=j`
+    let pairs := (if m == "-" then [] else splitOn m ";").filterMap (fun kv =>
+      match splitOn kv "=" with
+      | [k, v] => some (unhex k, parseNat v)
+      | _ => none)
+    match get i with
+    | .error e => .error e
+    | .ok a =>
+      let σ : Str → Option (DeepEx Sym) := fun x =>
+        match pairs.find? (fun p => p.1 == x) with
+        | some (_, j) => match pool[j % pool.size]? with
+          | some e => (match poolToDeep I t e with | .ok d => some d | .error _ => none)
+          | none => none
+        | none => none
+      fin (a.subs I σ)
+  | ["p", i, idxs] =>
+    match pool[parseNat i % pool.size]? with
+    | none => .error (.err "badindex")
+    | some (.inl fl) =>
+      (match fl.partialIter I C t (parseNats idxs) with
+        | .ok r => .ok (.inl r)
+        | .error e => .error e)
+    | some (.inr d) =>
+      (match d.partialIter I C t (parseNats idxs) with
+        | .ok r => .ok (.inr r)
+        | .error e => .error e)
+  | [o, i, j] =>
+    match get i, get j with
+    | .ok a, .ok b =>
+      fin (match o with
+        | "+" => a.add I C t b
+        | "-" => a.sub I t b
+        | "*" => a.mul I C t b
+        | "/" => a.div I C t b
+        | "^" => a.pow I C t b
+        | _ => .error (.err "badop"))
+    | .error e, _ => .error e
+    | _, .error e => .error e
+  | _ => .error (.err "badop")
+
+/-- `hist <table> <lm> <pool> <F|D> <history>` -/
+def doHist (f : List String) : String :=
+  match f with
+  | [tb, lm, poolF, form, hist] =>
+    let t := parseTable tb
+    let I := symInterpT t
+    let flat := form == "F"
+    let texts := (splitOn poolF ";").map unhex
+    let parsed : List (Res PoolEx) := texts.map (fun tx =>
+      if flat then (match Flat.parse I t (lmOf lm) tx with | .ok e => .ok (.inl e) | .error e => .error e)
+      else (match Deep.parse I t (lmOf lm) tx with | .ok e => .ok (.inr e) | .error e => .error e))
+    if parsed.any (fun r => !r.isOk) then "pool=E" else
+    let pool0 : Array PoolEx := (parsed.filterMap (fun r => match r with | .ok e => some e | .error _ => none)).toArray
+    let ops := if hist == "-" then [] else splitOn hist "|"
+    let rec go : List String → Array PoolEx → List String → List String
+      | [], _, acc => acc.reverse
+      | o :: os, pool, acc =>
+        match histStep I t flat pool o with
+        | .ok e => go os (pool.push e) (("ok " ++ poolShow I t e) :: acc)
+        | .error e => go os pool ((match e with | .err _ => "E" | .panic site => "PANIC:" ++ site) :: acc)
+    "pool=ok\tsteps=" ++ "|".intercalate (go ops pool0 [])
+  | _ => "BADREQ"
+
 def handle (line : String) : String :=
   match splitOn line "\t" with
   | "lex" :: rest => doLex rest
@@ -394,6 +595,8 @@ def handle (line : String) : String :=
   | "vars" :: rest => doVars rest
   | "damage" :: rest => doDamage rest
   | "crash" :: rest => doCrash rest
+  | "valop" :: rest => doValop rest
+  | "hist" :: rest => doHist rest
   | "order" :: rest => doOrder rest
   | "track" :: rest => doTrack rest
   | _ => "BADKIND"
